@@ -31,6 +31,9 @@ Inductive op :=
 | OFinish (w : want) (r : recycle)  (* the exchange of request w ends (readLoop's decision inputs) *)
 | OCancel (w : want)                (* the context of a request waiting for a connection is cancelled *)
 | OCloseIdle                        (* Transport.CloseIdleConnections *)
+| OStartCI (k : key)                (* OStart with CloseIdleConnections called from the GotConn hook (the
+                                       connection is already held by the request; a request that cannot get a
+                                       connection yet fires no hook: then it is a plain OStart) *)
 | OServerClose (k : key).           (* the origin closes every idle connection of host k *)
 
 Definition got := (want * conn * bool * bool)%type.   (* request, conn, Reused, WasIdle *)
@@ -82,10 +85,10 @@ Fixpoint settle (cfg : config) (df : list key) (fuel : nat) (s : state) (acc : l
            end
   end.
 
-Definition apply_op (cfg : config) (df : list key) (s : state) (o : op) : state * list got :=
+Definition apply_basic (cfg : config) (df : list key) (s : state) (o : op) : state * list got :=
   let pre :=
     match o with
-    | OStart k =>
+    | OStart k | OStartCI k =>
         let w := next_want s in
         let s1 := step cfg s (EGet k) in
         if wneed s1 w then step cfg s1 (EQueueDial w) else s1
@@ -97,6 +100,18 @@ Definition apply_op (cfg : config) (df : list key) (s : state) (o : op) : state 
         fold_left (fun s c => step cfg (step cfg s (EConnClose c)) (ERemoveIdle c)) (idle s k) s
     end in
   settle cfg df 64 pre [].
+
+Definition apply_op (cfg : config) (df : list key) (s : state) (o : op) : state * list got :=
+  match o with
+  | OStartCI k =>
+      let w := next_want s in
+      let '(s1, g1) := apply_basic cfg df s (OStart k) in
+      if existsb (fun g : got => let '(w', _, _, _) := g in Nat.eqb w' w) g1 then
+        (* GotConn fired during this operation: the hook ran CloseIdleConnections *)
+        let '(s2, g2) := apply_basic cfg df s1 OCloseIdle in (s2, g1 ++ g2)
+      else (s1, g1)
+  | _ => apply_basic cfg df s o
+  end.
 
 (* observed after an operation: GotConn facts since the previous one, and the pool projection
    (idle list lengths, LRU length, wait-queue lengths, per-host counts) *)
@@ -134,6 +149,9 @@ Definition rep (n : N) (b : byte) : bytes := repeat b (N.to_nat n).
 
 Inductive h2op :=
 | P2Start                 (* a request to the (single) authority enters RoundTrip and reaches the origin *)
+| P2StartCI               (* the same, with Transport.CloseIdleConnections called by another goroutine at the
+                             moment the connection has been picked (httptrace GotConn: after GetClientConn's
+                             reservation, before writeRequest opens the stream) *)
 | P2Finish (r : rid)      (* the origin answers request r and the caller reads the body to the end *)
 | P2CloseIdle.            (* Transport.CloseIdleConnections *)
 
@@ -172,10 +190,22 @@ Fixpoint h2_settle (m : nat) (fuel : nat) (s : h2state) : h2state :=
            end
   end.
 
+(* run what can run, but stop in front of the first H2Open (the request holds its reservation) *)
+Fixpoint h2_settle_reserved (m : nat) (fuel : nat) (s : h2state) : h2state :=
+  match fuel with
+  | 0 => s
+  | S f => match h2_runnable m s with
+           | None => s
+           | Some (H2Open _ _) => s
+           | Some e => h2_settle_reserved m f (h2_step s e)
+           end
+  end.
+
 Definition h2_apply (m : nat) (s : h2state) (o : h2op) : h2state :=
   h2_settle m 64
     (match o with
      | P2Start => h2_step s (H2Get 0)
+     | P2StartCI => h2_step (h2_settle_reserved m 64 (h2_step s (H2Get 0))) H2CloseIdle
      | P2Finish r => h2_step s (H2End r true)
      | P2CloseIdle => h2_step s H2CloseIdle
      end).
